@@ -197,3 +197,38 @@ func sitesC12(fset *token.FileSet, files map[string]*ast.File) (string, error) {
 	}
 	return "From V Require Import Base.Bytes Model.Entry.\nDefinition sites : list site := [\n" + strings.Join(rows, ";\n") + "\n].\n", nil
 }
+
+// ---------------- C07: the layout depth budget literal ----------------
+func init() { siteTables["C07"] = sitesC07 }
+
+func sitesC07(fset *token.FileSet, files map[string]*ast.File) (string, error) {
+	val := ""
+	n := 0
+	for _, fn := range sortedFileNames(files) {
+		for _, d := range files[fn].Decls {
+			fd, ok := d.(*ast.FuncDecl)
+			if !ok || fd.Body == nil || recvTypeName(fd) != "template" || fd.Name.Name != "layout" {
+				continue
+			}
+			ast.Inspect(fd.Body, func(x ast.Node) bool {
+				as, ok := x.(*ast.AssignStmt)
+				if !ok || len(as.Lhs) != 1 || len(as.Rhs) != 1 {
+					return true
+				}
+				if id, ok := as.Lhs[0].(*ast.Ident); ok && id.Name == "maxDepth" {
+					if lit, ok := as.Rhs[0].(*ast.BasicLit); ok && lit.Kind == token.INT {
+						val = lit.Value
+						n++
+					} else {
+						n += 100 // not a literal: the table theorem must fail
+					}
+				}
+				return true
+			})
+		}
+	}
+	if val == "" {
+		val = "0"
+	}
+	return fmt.Sprintf("Definition max_depth : nat := %s.\nDefinition max_depth_sites : nat := %d.\n", val, n), nil
+}
